@@ -17,6 +17,7 @@ import (
 	ledgerpkg "github.com/xuperchain/xupercore/bcs/ledger/xledger/ledger"
 	"github.com/xuperchain/xupercore/bcs/ledger/xledger/state/utxo"
 	pb "github.com/xuperchain/xupercore/bcs/ledger/xledger/xldgpb"
+	"github.com/xuperchain/xupercore/protos"
 )
 
 // NOp is one operation of the node machine.
@@ -1447,6 +1448,101 @@ func (nm *NodeMachine) CheckCrashImage(k int, before, after Snap) error {
 		if d := DiffObs(want, got); d != "" {
 			return fmt.Errorf("after restart + walk to the tip %s the state differs from the model (model -> node): %s", src.Blocks[tip].Label, d)
 		}
+	}
+	return nil
+}
+
+// ---- C09: the real Chain.PreExec -> client assembly -> SubmitTx pipeline ----
+
+// RealPreExec calls the real Chain.PreExec for the contract invocation of spec against live state.
+func (nm *NodeMachine) RealPreExec(spec *TxSpec) (*protos.InvokeResponse, error) {
+	cname := spec.Contract
+	if cname == "" {
+		cname = VerifContract
+	}
+	nm.noteKeys(spec.Prog, cname)
+	method := "Run"
+	args := EncodeProg(spec.Prog)
+	if spec.Method != "" {
+		method = spec.Method
+		args = map[string][]byte{}
+		for k, v := range spec.Args {
+			args[k] = []byte(v)
+		}
+	}
+	req := &protos.InvokeRequest{ModuleName: "xkernel", ContractName: cname, MethodName: method, Args: args}
+	if spec.ConAmt > 0 {
+		req.Amount = fmt.Sprint(spec.ConAmt)
+	}
+	initiator := Ring[spec.From].Address
+	return nm.N.Chain.PreExec(nm.N.Ctx, []*protos.InvokeRequest{req}, initiator, []string{initiator})
+}
+
+// AssembleFromResponse builds the transaction the way a client does from an InvokeResponse: read /
+// write set, requests with the returned limits, contract utxo inputs / outputs, and a "$" output
+// paying the gas used (taken from the payer's last output). It returns nil if the change cannot
+// cover the gas.
+func AssembleFromResponse(spec *TxSpec, resp *protos.InvokeResponse) *pb.Transaction {
+	k := Ring[spec.From]
+	v := spec.Version
+	if v == 0 {
+		v = 3
+	}
+	tx := &pb.Transaction{Version: v, Nonce: fmt.Sprintf("n%d", spec.Seq), Timestamp: int64(spec.Seq), Initiator: k.Address,
+		AuthRequire: []string{k.Address}, Desc: []byte(spec.Desc)}
+	for _, r := range spec.Ins {
+		id, _ := hex.DecodeString(r.Txid)
+		a, _ := new(big.Int).SetString(r.Amount, 10)
+		tx.TxInputs = append(tx.TxInputs, &protos.TxInput{RefTxid: id, RefOffset: r.Off, FromAddr: []byte(r.addr()), Amount: a.Bytes(), FrozenHeight: r.Frozen})
+	}
+	for _, o := range spec.Outs {
+		tx.TxOutputs = append(tx.TxOutputs, &protos.TxOutput{ToAddr: []byte(o.addr()), Amount: o.amountBytes(), FrozenHeight: o.Frozen})
+	}
+	if resp.GasUsed > 0 {
+		last := tx.TxOutputs[len(tx.TxOutputs)-1]
+		rest := new(big.Int).Sub(new(big.Int).SetBytes(last.Amount), big.NewInt(resp.GasUsed))
+		if rest.Sign() < 0 || string(last.ToAddr) == FeeAddr {
+			return nil
+		}
+		last.Amount = rest.Bytes()
+		tx.TxOutputs = append(tx.TxOutputs, &protos.TxOutput{ToAddr: []byte(FeeAddr), Amount: big.NewInt(resp.GasUsed).Bytes()})
+	}
+	tx.ContractRequests = resp.Requests
+	tx.TxInputsExt = resp.Inputs
+	tx.TxOutputsExt = resp.Outputs
+	tx.TxInputs = append(tx.TxInputs, resp.UtxoInputs...)
+	tx.TxOutputs = append(tx.TxOutputs, resp.UtxoOutputs...)
+	SignTx(tx, k)
+	return tx
+}
+
+// TryMutant submits a (re-signed) mutant the way Chain.SubmitTx does and reports whether it was
+// admitted; a refused mutant must leave no trace (checked by the caller with CheckState).
+func (nm *NodeMachine) TryMutant(tx *pb.Transaction) (admitted bool, why string) {
+	sub := CloneTx(tx)
+	ok, err := nm.N.State.VerifyTx(sub)
+	if !ok || err != nil {
+		return false, fmt.Sprintf("VerifyTx: %v/%v", ok, err)
+	}
+	if err := nm.N.State.DoTx(sub); err != nil {
+		return false, fmt.Sprintf("DoTx: %v", err)
+	}
+	return true, ""
+}
+
+// SubmitReal submits tx through the real Chain.SubmitTx and keeps the model in sync.
+func (nm *NodeMachine) SubmitReal(tx *pb.Transaction) error {
+	want := nm.PoolState().Check(tx, nm.ledgerHeight())
+	err := nm.N.Chain.SubmitTx(nm.N.Ctx, CloneTx(tx))
+	if want == nil && err != nil {
+		return fmt.Errorf("SubmitTx refuses the pre-executed transaction although every input is current: %v (%s)", err, DescribeTx(tx))
+	}
+	if want != nil && err == nil {
+		return fmt.Errorf("SubmitTx admits a transaction the model refuses (%v): %s", want, DescribeTx(tx))
+	}
+	if err == nil {
+		nm.Pool = append(nm.Pool, tx)
+		nm.Stat["tx-admitted"]++
 	}
 	return nil
 }
